@@ -31,13 +31,19 @@ def _fin(name, val, x, t):
         raise Violation(f"{name}:nonfinite", f"{name}({x!r}, {t!r}) = {val!r}")
 
 
-def check_vw_point(x, t, ctx=None):
+def check_vw_point(x, t, ctx=None, given=None):
+    """given = (v value, w value) observed elsewhere (a child process): judged instead of evaluating here"""
     _, v, w, _, _ = funcs()
-    try:
-        fv = v(x, t)
-        fw = w(x, t)
-    except Exception as e:  # noqa: BLE001
-        raise Violation("vw:raised", f"v/w({x!r}, {t!r}) raised {type(e).__name__}: {e}") from None
+    if given is not None:
+        fv, fw = given
+        if isinstance(fv, str) or isinstance(fw, str):
+            raise Violation("vw:raised", f"v/w({x!r}, {t!r}): {fv!r} / {fw!r}")
+    else:
+        try:
+            fv = v(x, t)
+            fw = w(x, t)
+        except Exception as e:  # noqa: BLE001
+            raise Violation("vw:raised", f"v/w({x!r}, {t!r}) raised {type(e).__name__}: {e}") from None
     _fin("v", fv, x, t)
     _fin("w", fw, x, t)
     if fv < 0:
@@ -73,13 +79,18 @@ def check_vw_point(x, t, ctx=None):
     return "asym"
 
 
-def check_tie_point(x, t, ctx=None):
+def check_tie_point(x, t, ctx=None, given=None):
     _, _, _, vt, wt = funcs()
-    try:
-        fv = vt(x, t)
-        fw = wt(x, t)
-    except Exception as e:  # noqa: BLE001
-        raise Violation("vtwt:raised", f"vt/wt({x!r}, {t!r}) raised {type(e).__name__}: {e}") from None
+    if given is not None:
+        fv, fw = given
+        if isinstance(fv, str) or isinstance(fw, str):
+            raise Violation("vtwt:raised", f"vt/wt({x!r}, {t!r}): {fv!r} / {fw!r}")
+    else:
+        try:
+            fv = vt(x, t)
+            fw = wt(x, t)
+        except Exception as e:  # noqa: BLE001
+            raise Violation("vtwt:raised", f"vt/wt({x!r}, {t!r}) raised {type(e).__name__}: {e}") from None
     _fin("vt", fv, x, t)
     _fin("wt", fw, x, t)
     slack = 1e-13 / t
@@ -99,12 +110,17 @@ def check_tie_point(x, t, ctx=None):
         raise Violation("wt:accuracy", f"wt({x!r}, {t!r}) = {fw!r}, exact W~ = {mp.nstr(ew, 17)}: off by {mp.nstr(abs(M(fw)-ew), 4)} > 20t + 1e-13/t")
 
 
-def check_phi_point(x, ctx=None):
+def check_phi_point(x, ctx=None, given=None):
     phi_major = funcs()[0]
-    try:
-        f = phi_major(x)
-    except Exception as e:  # noqa: BLE001
-        raise Violation("phi:raised", f"phi_major({x!r}) raised {type(e).__name__}: {e}") from None
+    if given is not None:
+        f = given
+        if isinstance(f, str):
+            raise Violation("phi:raised", f"phi_major({x!r}): {f!r}")
+    else:
+        try:
+            f = phi_major(x)
+        except Exception as e:  # noqa: BLE001
+            raise Violation("phi:raised", f"phi_major({x!r}) raised {type(e).__name__}: {e}") from None
     _fin("phi_major", f, x, None)
     e = gauss.Phi(M(x))
     r = abs(M(f) - e) / (M("1e-12") * e)
@@ -333,14 +349,21 @@ def run_revisit(spec, tag):
 def check_revisit(spec, ctx, tag="replay"):
     out = run_revisit(spec, tag)
     names = ["v", "w", "vt", "wt", "phi_major"]
-    for (x, t), a, b in zip(spec["first"], out["first"], out["again"]):
-        for nm, va, vb in zip(names, a, b):
-            if va != vb and not (va != va and vb != vb):
-                raise Violation(f"revisit:{nm}", f"{nm}({x!r}{'' if nm == 'phi_major' else ', ' + repr(t)}) returned {va!r} as one of the first evaluations of the process and "
-                                                 f"{vb!r} after {spec['K']} evaluations at other points")
-        # and the first values are judged by the ordinary oracle
-        check_vw_point(x, t, None)
-        check_tie_point(x, t, None)
+    for which, pts in (("first", spec["first"]), ("second", spec.get("second", []))):
+        for (x, t), a, b in zip(pts, out[which], out[which + "_again"]):
+            for nm, va, vb in zip(names, a, b):
+                if va != vb and not (va != va and vb != vb):
+                    raise Violation(f"revisit:{nm}", f"{nm}({x!r}{'' if nm == 'phi_major' else ', ' + repr(t)}) returned {va!r} early in the process and "
+                                                     f"{vb!r} after {spec['K']} evaluations at other points")
+            # the values the CHILD observed are judged by the ordinary oracle (the second set was evaluated right after calls with the same
+            # numbers in wrong types - Decimal, Fraction, str, None - that raised or not: they must not have left anything behind)
+            try:
+                check_vw_point(x, t, None, given=(a[0], a[1]))
+                check_tie_point(x, t, None, given=(a[2], a[3]))
+                if abs(x) <= 37.5:
+                    check_phi_point(x, None, given=a[4])
+            except Violation as v:
+                raise Violation(("after-failed-evaluation:" if which == "second" else "first-evaluation:") + v.bucket, v.detail) from None
     ctx.called(2 * 5 * len(spec["first"]) + 5 * spec["K"])
     ctx.nontrivial_if(spec["K"] >= 33000)
 
@@ -357,7 +380,9 @@ def revisit_custom(ctx, seed, tier, shard, nshards, n):
     @given(st.lists(points(), min_size=3, max_size=12), st.integers(0, 2 ** 32 - 1))
     def collect(first, prng):
         pts = [[0.0, 1e-4 / math.sqrt(2 * 25.0 / 3 * 25.0 / 3 + 2 * (25.0 / 6) ** 2)]] + [[p["x"], p["t"]] for p in first]  # default v default first
-        specs.append({"first": pts, "prng": prng, "K": K})
+        pts += [[0.0, 2.5e-5], [-2.5, 1e-4]]  # round numbers also in the set that is first asked for in wrong types
+        half = max(1, len(pts) // 2)
+        specs.append({"first": pts[:half], "second": pts[half:], "prng": prng, "K": K})
 
     collect()
     specs = specs[:n] if shard == 0 else specs[1:n + 1]
